@@ -21,6 +21,9 @@ VIOLATED = bool(bad); DETAIL = "%d crafted v2 / mixed buffers misbehave on the d
 '''
 
 
+from .crecords_legacy import HOLDS, HOLDS_AT_EXIT      # noqa: E402
+
+
 # ------------------------------------------------------------------ cutil.decode_varint64
 @contract(CMOD + ":decode_varint64", ["C10"])
 def _(c):
@@ -138,8 +141,10 @@ def _(c):
                note="codec library: the decompressed payload (any content, any length)")
     c.call("data.tobytes", returns=BYTES, note="copy of the view")
     c.modifies("self._buffer", "self._pos", "self._decompressed")
-    c.raises("codec-missing-or-corrupt-payload", "Exception")
+    HOLDS(c)
+    c.raises("codec-missing-or-corrupt-payload", "Exception", ensures=[HOLDS_AT_EXIT])
     c.ensures("cursor-inside-the-buffer", CURSOR_OK)
+    c.ensures(*HOLDS_AT_EXIT)
 
 
 @contract(DMOD + ":DefaultRecordBatch.__next__", ["C10"])
